@@ -22,9 +22,16 @@ RULE = ('texts: 1-6 fragments (Python statements, `$name`, unterminated strings/
 TRUSTED = ['CPython tokenizer/parser/compiler: which texts are valid Python and what they evaluate to (oracle; the '
            'physical-line rule of Model/Codegen.v is compared with it on generated texts)',
            'asttokens/astroid positions (the `$name` theorem takes token/AST positions as given)',
-           'Model/Codegen.v and Model/Dollar.v are hand-written models of the line-level behaviour of _indent, '
-           '_dedent, _create_syntax_error_code, _make_formula_field, Replacer; compared with the running functions '
-           'on generated texts on every run',
+           'harness/cb2v.py (translator codebuilder.py -> coq/gen/CodeBuilder_gen.v, regenerated every run, bridged '
+           'pointwise to the hand models in Props/C19_code.v) and harness/tb2v.py (textbuilder, C37): validated each run '
+           'by evaluating the generated definitions against the running functions',
+           'the meaning of the 8 regular expressions (Lib/CbPrelude.v re_finditer/re_sub) is hand-written per pattern; '
+           'the pattern strings/flags are pinned by cb2v and the meanings are compared with the re module each run',
+           'not translated, pinned by normalised-AST hash (harness/cb2v_pins.json): the part of '
+           '_create_syntax_error_code before its return (line/column arithmetic, friendly message) and the rest of '
+           '_do_make_formula_body (parse/astroid calls, lambda wrapping of IF/ISERR/.. arguments, last-statement rule)',
+           'Model/Dollar.v (the `$name` patches as a token-stream statement) stays a hand-written model compared with '
+           'the running code on generated formulas',
            'str.isprintable table of the running interpreter (coq/gen/Codegen_gen.v, regenerated each run; no '
            'theorem depends on it)']
 ASSUMPTIONS = ['formula texts are valid Unicode strings (no lone surrogates: those make ast.parse raise '
